@@ -1,7 +1,7 @@
 """Program families for the language-core properties (C04 C07 C08 C09 C14), as JSON trees in the form
 shared by spec/AnkoSem.tla and harness/internal/astjson.  Families are enumerated exhaustively over small
 pools (the 'bounded grammar' of the checks); rand_* generators draw wider programs from VERIF_SEED."""
-import itertools, random
+import itertools, json, random
 
 
 # ---- constructors
@@ -692,3 +692,507 @@ class Rand:
 def rand_programs(seed, n, maxdepth=4):
     g = Rand(seed, maxdepth=maxdepth)
     return [{"id": "rand-%d-%d" % (seed, i), "prog": g.program()} for i in range(n)]
+
+
+# ---------------------------------------------------------------- random programs over the WHOLE language of AnkoSem (typed by name, so that
+# every run stays inside the decided fragment: ints i*, strings s*, lists of ints l*, maps string->int m*, functions f* of recorded arity)
+class Rand2:
+    INTS = ["i1", "i2", "i3"]
+    STRS = ["s1", "s2"]
+    LISTS = ["l1", "l2"]
+    MAPS = ["m1"]
+
+    def __init__(self, seed, maxdepth=3):
+        self.r = random.Random(seed)
+        self.maxdepth = maxdepth
+
+    # ---- bookkeeping: lexical scopes (name -> kind), functions (name -> (nfix, va, ret))
+    def reset(self):
+        self.pid = 0
+        self.nfn = 0
+        self.nmod = 0
+        self.scopes = [{}]
+        self.mods = {}          # module name -> {"vars": [...], "fns": {name: sig}}
+        self.nocall = False     # set while a rebinding body is built: no calls there, so that no call cycle can arise
+
+    def push(self): self.scopes.append({})
+    def pop(self): self.scopes.pop()
+    def define(self, n, kind): self.scopes[-1][n] = kind
+    def known(self, kind):
+        out = []
+        for sc in self.scopes:
+            for n, k in sc.items():
+                if (k == kind or (kind == "fn" and isinstance(k, tuple))) and n not in out:
+                    out.append(n)
+        return out
+    def sig(self, n):
+        for sc in reversed(self.scopes):
+            if n in sc:
+                return sc[n]
+        return None
+    def pidn(self):
+        self.pid += 1
+        return self.pid
+    def probe(self): return P(self.pidn())
+    def peek(self):
+        # what a name means here: the nearest binding or none (scope leaks show up as a different answer)
+        n = self.r.choice(self.INTS + self.STRS + self.LISTS + ["mv", "loc", "cnt", "x", "y", "e", "gv"])
+        return P(Nilco(Id(n), S("undef")))
+
+    # ---- expressions
+    def lit(self): return I(self.r.randrange(4))
+    def pv(self): return PV(self.pidn(), self.lit())
+
+    def ivar(self):
+        ks = self.known("int")
+        if ks and self.r.random() < 0.85:
+            return Id(self.r.choice(ks))
+        return Nilco(Id(self.r.choice(self.INTS)), self.lit())
+
+    def iatom(self, d):
+        r = self.r
+        k = r.randrange(12)
+        if k <= 1: return self.lit()
+        if k <= 3: return self.pv()
+        if k <= 5: return self.ivar()
+        if k == 6:
+            ls = self.known("list")
+            return Len_(Id(r.choice(ls))) if ls else Len_(self.llit(d + 1))
+        if k == 7:
+            ls = self.known("list")
+            base = Id(r.choice(ls)) if ls else self.llit(d + 1, typed=False, minlen=1)
+            return Nilco(Idx(base, self.lit() if r.random() < 0.7 else self.pv()), self.lit())
+        if k == 8:
+            ms = self.known("map")
+            if ms:
+                key = S(r.choice(["a", "b", "z"]))
+                m = Id(r.choice(ms))
+                return Nilco(Idx(m, key) if r.random() < 0.5 else Member(m, key["s"]), self.lit())
+            return self.lit()
+        if k == 9 and d < 2:
+            c = self.call_int(d)
+            if c is not None:
+                return c
+        if k == 10 and d < 2: return Tern(self.bexpr(d + 1), self.iatom(d + 1), self.iatom(d + 1))
+        if k == 11 and d < 2: return I(-self.r.randrange(1, 3)) if self.r.random() < 0.5 else Un("-", self.ivar())
+        return self.lit()
+
+    def small(self):
+        return self.lit() if self.r.random() < 0.6 else self.pv()
+
+    def iexpr(self, d=0):
+        r = self.r
+        k = r.randrange(8)
+        if k <= 2 or d >= 2: return self.iatom(d)
+        if k <= 4:   # at most one growing operand: values stay linear in the number of steps
+            a, b = self.iatom(d + 1), self.small()
+            if r.random() < 0.5: a, b = b, a
+            return Bin(r.choice(["+", "-"]), a, b)
+        if k == 5: return Bin("*", self.small(), self.small())
+        if k == 6: return Bin("%", self.small(), I(r.randrange(1, 4)) if r.random() < 0.9 else I(0))
+        return self.iatom(d)
+
+    def bexpr(self, d=0):
+        r = self.r
+        k = r.randrange(10 if d < 2 else 4)
+        if k == 0: return B(r.random() < 0.5)
+        if k <= 3: return Bin(r.choice(["<", "<=", ">", ">=", "==", "!="]), self.iexpr(d + 1), self.iexpr(d + 1))
+        if k == 4: return Bin(r.choice(["&&", "||"]), self.cond(d + 1), self.cond(d + 1))
+        if k == 5: return Un("!", self.cond(d + 1))
+        if k == 6: return Bin(r.choice(["==", "!="]), self.sexpr(d + 1), self.sexpr(d + 1))
+        if k == 7: return Bin(r.choice(["==", "!="]), self.ivar(), NIL)
+        if k == 8: return Tern(self.cond(d + 1), self.bexpr(d + 1), self.bexpr(d + 1))
+        return Bin("&&", self.bexpr(d + 1), self.bexpr(d + 1))
+
+    def cond(self, d=0):
+        # any value used for its truthiness
+        r = self.r
+        k = r.randrange(8)
+        if k <= 3: return self.bexpr(d)
+        if k == 4: return self.iexpr(d + 1)
+        if k == 5: return self.sexpr(d + 1)
+        if k == 6:
+            ls = self.known("list")
+            return Id(r.choice(ls)) if ls else self.llit(d + 1, typed=False)
+        return NIL if r.random() < 0.3 else self.pv()
+
+    def sexpr(self, d=0):
+        r = self.r
+        k = r.randrange(6)
+        ss = self.known("str")
+        if k <= 1 or d >= 2: return S(r.choice(["", "x", "yy", "0", "false"]))
+        if k == 2 and ss: return Id(r.choice(ss))
+        if k == 3: return Bin("+", S(r.choice(["a", "b"])), self.small())
+        if k == 4 and ss: return Bin("+", Id(r.choice(ss)), S(r.choice(["x", "", "q"])))
+        return Bin("+", S(r.choice(["a", ""])), S(r.choice(["b", "c"])))
+
+    def llit(self, d=0, typed=True, minlen=0):
+        r = self.r
+        es = [self.small() if r.random() < 0.7 else self.iexpr(d + 1) for _ in range(r.randrange(minlen, 4))]
+        if typed and r.random() < 0.2: return TL(r.choice(["[]int64", "[]interface"]), *es)
+        return L(*es)
+
+    def lexpr(self, d=0, typed=True):
+        r = self.r
+        k = r.randrange(7)
+        ls = self.known("list")
+        if not typed:
+            # statement headers (if / for ... in): a composite literal there is ambiguous with the block
+            if ls and r.random() < 0.5: return Id(r.choice(ls))
+            return self.llit(d, typed=False)
+        if k <= 2 or d >= 2: return self.llit(d)
+        if k == 3 and ls: return Id(r.choice(ls))
+        if k == 4 and ls: return Bin("+", Id(r.choice(ls)), self.llit(d + 1) if r.random() < 0.5 else self.small())
+        if k == 5:
+            c = self.call_kind("list", d)
+            if c is not None:
+                return c
+        return self.llit(d)
+
+    def mlit(self, d=0):
+        r = self.r
+        kv = [(S(r.choice(["a", "b", "c"])), self.small() if r.random() < 0.7 else self.iexpr(d + 1)) for _ in range(r.randrange(3))]
+        if r.random() < 0.2: return TM(r.choice(["map[string]int64", "map[string]interface"]), *kv)
+        return M(*kv)
+
+    def args_for(self, sig, d):
+        nfix, va, _ = sig
+        r = self.r
+        args = [self.iexpr(d + 1) for _ in range(nfix)]
+        spread = False
+        if va:
+            if r.random() < 0.35:
+                ls = self.known("list")     # (an operator expression before "..." would need parentheses: `l1 + 1...` does not scan)
+                args.append(Id(r.choice(ls)) if ls and r.random() < 0.6 else self.llit(d + 1))
+                spread = True
+            else:
+                args += [self.small() for _ in range(r.randrange(3))]
+        elif nfix >= 1 and r.random() < 0.12:
+            # a list of exactly the right length spread over the fixed parameters
+            keep = r.randrange(nfix)
+            args = args[:keep] + [L(*[self.small() for _ in range(nfix - keep)])]
+            spread = True
+        return args, spread
+
+    def callee(self, name):
+        return name
+
+    def call_kind(self, ret, d):
+        r = self.r
+        if self.nocall:
+            return None
+        cands = [n for n in self.known("fn") if self.sig(n)[2] == ret]
+        mods = [(m, f) for m, info in self.mods.items() if self.sig(m) == "mod" for f, sg in info["fns"].items() if sg[2] == ret]
+        if not cands and not mods:
+            return None
+        if mods and (not cands or r.random() < 0.3):
+            m, f = r.choice(mods)
+            args, spread = self.args_for(self.mods[m]["fns"][f], d)
+            return ACall(Member(Id(m), f), *args, spread=spread)
+        n = r.choice(cands)
+        args, spread = self.args_for(self.sig(n), d)
+        if r.random() < 0.15:
+            return ACall(Id(n), *args, spread=spread)
+        return Call(n, *args, spread=spread)
+
+    def call_int(self, d): return self.call_kind("int", d)
+
+    # ---- statements
+    def block(self, d, inloop, infn, n=None, scope=True):
+        if scope: self.push()
+        n = n if n is not None else self.r.randrange(1, 4)
+        out = []
+        for _ in range(n):
+            out += self.stmt(d, inloop, infn)
+        if scope: self.pop()
+        return out
+
+    def assign_target(self, kind, pool):
+        n = self.r.choice(pool)
+        if self.sig(n) is None:
+            self.define(n, kind)
+        return n
+
+    def fn_body(self, d, ps, ret, va=False):
+        # parameters: ints (the variadic one a list); the body ends with a return of the declared kind
+        self.push()
+        for p in ps[:-1] if va else ps:
+            self.define(p, "int")
+        if va:
+            self.define(ps[-1], "list")
+        body = self.block(d + 1, False, True, scope=False)
+        if ret == "int":
+            tail = Ret(self.iexpr(1))
+        elif ret == "list":
+            tail = Ret(self.small(), self.small()) if self.r.random() < 0.6 else Ret(self.lexpr(1))
+        else:
+            tail = Ret(self.iexpr(1))
+        self.pop()
+        return body + [tail]
+
+    def def_fn(self, d):
+        r = self.r
+        self.nfn += 1
+        name = "f%d" % self.nfn
+        nfix = r.randrange(3)
+        va = r.random() < 0.25
+        ret = "list" if r.random() < 0.2 else "int"
+        ps = ["x", "y"][:nfix] + (["zs"] if va else [])
+        kind = r.randrange(4)
+        if kind == 0 and nfix >= 1 and ret == "int" and not va:
+            # bounded recursion on the first parameter
+            self.define(name, (nfix, va, ret))
+            args = [Bin("-", Id("x"), I(1))] + [self.small() for _ in range(nfix - 1)]
+            body = [If(Bin("<=", Id("x"), I(0)), [Ret(self.small())]), self.probe(), Ret(Bin("+", Call(name, *args), I(1)))]
+            return [FnStmt(name, ps, body)], name
+        self.define(name, (nfix, va, ret))     # visible to its own body too (no self call is generated there: call_kind may pick it; keep it out while building)
+        saved = self.scopes[-1].pop(name)
+        body = self.fn_body(d, ps, ret, va)
+        self.scopes[-1][name] = saved
+        if kind == 1:
+            return [Let(name, Fn(ps, body, va=va))], name
+        return [FnStmt(name, ps, body, va=va)], name
+
+    def stmt(self, d, inloop, infn):
+        out = self.stmt0(d, inloop, infn)
+        if len(out) >= 1 and out[0]["k"] not in ("expr", "let", "var", "defer", "letmi") and self.r.random() < 0.2 and not self.holds_jump(out):
+            # the same statements inside a try: an error raised in them is caught and execution goes on in the enclosing scope
+            return [Try(out, "e", [P(Id("e")), self.peek(), self.peek()])] if all(x["k"] != "expr" or x["e"].get("k") != "fn" for x in out) else out
+        if len(out) >= 1 and out[-1]["k"] in ("if", "forin", "cfor", "while", "loop", "switch", "try", "module") and self.r.random() < 0.3:
+            return out + [self.peek()]
+        return out
+
+    def holds_jump(self, stmts):
+        # break / continue / return somewhere inside (they would leave the try: kept out of the wrapper)
+        txt = json.dumps(stmts)
+        return '"k": "break"' in txt or '"k": "continue"' in txt or '"k": "return"' in txt
+
+    def stmt0(self, d, inloop, infn):
+        r = self.r
+        deep = d >= self.maxdepth
+        k = r.randrange(43)
+        if k <= 2: return [self.probe()]
+        if k <= 5:
+            e = self.iexpr()
+            return [Let(self.assign_target("int", self.INTS), e)]
+        if k == 6:
+            e = self.iexpr()
+            n = r.choice(self.INTS); self.define(n, "int")
+            return [Var(n, e)]
+        if k == 7:
+            e = self.sexpr()
+            return [Let(self.assign_target("str", self.STRS), e)]
+        if k == 8:
+            e = self.lexpr()
+            return [Let(self.assign_target("list", self.LISTS), e)]
+        if k == 9:
+            e = self.mlit()
+            return [Let(self.assign_target("map", self.MAPS), e)]
+        if k == 10:
+            # several targets, several values (equal counts, or surplus values)
+            es = [self.iexpr(1) if r.random() < 0.5 else self.pv() for _ in range(r.choice([2, 2, 3, 4, 5]))]
+            a, b = r.sample(self.INTS, 2)
+            for n in (a, b):
+                if self.sig(n) is None: self.define(n, "int")
+            return [Let([a, b], es)]
+        if k == 11:
+            # destructuring a list of at least two ints
+            src = L(self.small(), self.small(), *[self.small() for _ in range(r.randrange(2))])
+            c = self.call_kind("list", 1)
+            a, b = r.sample(self.INTS, 2)
+            if c is not None and c["k"] == "call" and r.random() < 0.5 and False:
+                src = c
+            if r.random() < 0.5:
+                for n in (a, b):
+                    if self.sig(n) is None: self.define(n, "int")
+                return [Let([a, b], src)]
+            self.define(a, "int"); self.define(b, "int")
+            return [Var([a, b], [src])]
+        if k == 12:
+            ms = self.known("map")
+            if ms:
+                key = S(r.choice(["a", "b", "z"]))
+                return [LetMI("gv", "ok", Idx(Id(r.choice(ms)), PV(self.pidn(), key) if r.random() < 0.5 else key)), P(Nilco(Id("gv"), S("none"))), P(Id("ok"))]
+            return [self.probe()]
+        if k == 13: return [P(self.iexpr())]
+        if k == 14: return [P(r.choice([self.sexpr, self.lexpr, self.bexpr])())]
+        if k == 15 and inloop: return [If(self.cond(), [r.choice([BRK, CNT])])]
+        if k == 16 and infn: return [If(self.cond(), [Ret(self.iexpr())])]
+        if k == 17: return [If(self.cond(), [Throw(S("t%d" % r.randrange(3)) if r.random() < 0.8 else self.small())])]
+        if k == 18:
+            if not (infn or d == 0): return [self.probe()]
+            c = self.call_kind("int", 1)
+            if c is not None and r.random() < 0.5: return [Defer(c)]
+            if r.random() < 0.3:
+                self.push(); body = self.block(d + 1, False, True, scope=False) + [Ret(I(0))]; self.pop()
+                return [Defer(ACall(Fn([], body)))]
+            return [Defer(Call("p", self.iexpr()))]
+        if k == 19:
+            ks = self.known("int")
+            if ks: return [E(Inc(r.choice(ks)))]
+            return [self.probe()]
+        if k == 20:
+            c = self.call_kind(r.choice(["int", "list"]), 0)
+            if c is not None: return [P(c)]
+            return [self.probe()]
+        if k == 21:
+            # rebinding a function name to another function of the same shape
+            fs = [n for n in self.known("fn") if not self.sig(n)[1]]
+            if fs and not deep:
+                n = r.choice(fs)
+                nfix, va, ret = self.sig(n)
+                ps = ["x", "y"][:nfix]
+                self.nocall = True
+                body = self.fn_body(self.maxdepth, ps, ret)
+                self.nocall = False
+                return [Let(n, Fn(ps, body))]
+            return [self.probe()]
+        if deep: return [self.probe()]
+        if k == 22: return [If(self.cond(), self.block(d + 1, inloop, infn), els=self.block(d + 1, inloop, infn) if r.random() < 0.5 else None)]
+        if k == 23:
+            elifs = [(self.cond(), self.block(d + 1, inloop, infn)) for _ in range(r.randrange(1, 3))]
+            return [If(self.cond(), self.block(d + 1, inloop, infn), elifs=elifs, els=self.block(d + 1, inloop, infn) if r.random() < 0.6 else None)]
+        if k == 24:
+            v = "e%d" % d
+            self.push(); self.define(v, "int")
+            body = self.block(d + 1, True, infn, scope=False); self.pop()
+            return [ForIn(v, self.lexpr(1, typed=False), body)]
+        if k == 25:
+            self.push(); self.define("k%d" % d, "str"); self.define("v%d" % d, "int")
+            body = self.block(d + 1, True, infn, scope=False); self.pop()
+            kv = [(S(r.choice(["a", "b"])), self.small())] if r.random() < 0.8 else []
+            return [ForIn(["k%d" % d, "v%d" % d], M(*kv), body)]
+        if k == 26:
+            v = "q%d" % d
+            self.push(); self.define(v, "int")
+            body = self.block(d + 1, True, infn, scope=False); self.pop()
+            return [CFor(Let(v, I(0)), Bin("<", Id(v), I(r.randrange(1, 4))), Inc(v), body)]
+        if k == 27:
+            v = "w%d" % d
+            self.define(v, "int")
+            return [Let(v, I(0)), While(Bin("<", Id(v), I(r.randrange(1, 4))), [Let(v, Bin("+", Id(v), I(1)))] + self.block(d + 1, True, infn))]
+        if k == 28:
+            v = "n%d" % d
+            self.define(v, "int")
+            return [Let(v, I(0)), Loop([Let(v, Bin("+", Id(v), I(1))), If(Bin(">", Id(v), I(r.randrange(1, 3))), [BRK])] + self.block(d + 1, True, infn))]
+        if k == 29:
+            cases = []
+            for _ in range(r.randrange(1, 4)):
+                es = [self.small() for _ in range(r.randrange(1, 3))]
+                cases.append((es, self.block(d + 1, inloop, infn)))
+            return [Switch(self.iexpr(1), cases, d=self.block(d + 1, inloop, infn) if r.random() < 0.6 else None)]
+        if k == 30:
+            cases = [([S(x)], self.block(d + 1, inloop, infn)) for x in r.sample(["", "x", "yy", "a"], r.randrange(1, 3))]
+            return [Switch(self.sexpr(1), cases, d=self.block(d + 1, inloop, infn) if r.random() < 0.5 else None)]
+        if k == 31:
+            self.push(); b = self.block(d + 1, inloop, infn, scope=False)
+            cv = r.choice(["e", "e", ""])
+            c = ([P(Id("e")), self.peek()] if cv and r.random() < 0.7 else []) + self.block(d + 1, inloop, infn, scope=False)
+            self.pop()
+            return [Try(b, cv, c)]
+        if k == 32:
+            # with finally: no control transfer out of the try or catch block (left open by the statements)
+            self.push(); b = self.block(d + 1, False, False, scope=False)
+            c = [P(Id("e"))] + self.block(d + 1, False, False, scope=False)
+            f = [self.probe(), self.peek()] + self.block(d + 1, False, False, scope=False)
+            self.pop()
+            return [Try(b, "e", c, f=f)]
+        if k in (33, 34, 35):
+            stmts, name = self.def_fn(d)
+            sg = self.sig(name)
+            args, spread = self.args_for(sg, 1)
+            use = P(Call(name, *args, spread=spread))
+            if r.random() < 0.5:
+                return stmts + [Try([use], "e", [P(Id("e"))])]
+            return stmts + [use]
+        if k == 36:
+            self.push(); body = self.block(d + 1, False, True, scope=False) + [Ret(self.iexpr(1))]; self.pop()
+            return [Try([P(ACall(Fn([], body)))], "e", [P(Id("e"))])]
+        if k == 37:
+            # a counter closure: captures a variable of the enclosing invocation by reference
+            self.nfn += 1
+            mk, c = "mk%d" % self.nfn, "c%d" % self.nfn
+            step = r.randrange(1, 3)
+            inner = Fn([], [Let("cnt", Bin("+", Id("cnt"), I(step))), self.probe(), Ret(Id("cnt"))])
+            self.define(mk, "other"); self.define(c, (0, False, "int"))
+            out = [FnStmt(mk, ["cnt"], [Ret(inner)]), Let(c, Call(mk, self.small()))]
+            out += [P(Call(c)) for _ in range(r.randrange(1, 3))]
+            if r.random() < 0.4:
+                c2 = c + "b"
+                self.define(c2, (0, False, "int"))
+                out += [Let(c2, Call(mk, self.small())), P(Call(c2)), P(Call(c))]
+            return out
+        if k == 38:
+            self.nmod += 1
+            m = "md%d" % self.nmod
+            self.push()
+            self.define("mv", "int")
+            fn1 = "g%d" % self.nmod
+            body = [Let("mv", self.small())]
+            self.define(fn1, (1, False, "int"))
+            saved = self.scopes[-1].pop(fn1)
+            fb = self.fn_body(d, ["x"], "int")
+            self.scopes[-1][fn1] = saved
+            body += [FnStmt(fn1, ["x"], fb[:-1] + [Ret(Bin("+", Id("x"), Id("mv")))])] + self.block(d + 1, False, infn, n=r.randrange(2), scope=False)
+            self.pop()
+            self.define(m, "mod")
+            self.mods[m] = {"fns": {fn1: (1, False, "int")}}
+            out = [Module(m, body), P(ACall(Member(Id(m), fn1), self.small())), P(Member(Id(m), "mv"))]
+            if r.random() < 0.5:
+                out += [{"k": "let", "lhs": [Member(Id(m), "mv")], "rhs": [self.small()]}, P(ACall(Member(Id(m), fn1), self.small()))]
+            return out
+        if k == 39:
+            # a Go function that panics: an ordinary error of the call, also when deferred
+            if (infn or d == 0) and r.random() < 0.5:
+                return [Defer(Call("pp", self.small())), self.probe()]
+            return [Try([self.probe(), E(Call("pp", self.small())), self.probe()], "e", [P(Id("e"))], f=[self.probe()] if r.random() < 0.5 else None)]
+        if k == 40:
+            # defer <name>(...) in a function that runs several times while <name> is rebound in between
+            fs = [n for n in self.known("fn") if self.sig(n) == (1, False, "int")]
+            if fs:
+                fb = r.choice(fs)
+                self.nfn += 1
+                fa = "h%d" % self.nfn
+                self.define(fa, (0, False, "int"))
+                self.nocall = True
+                nb = self.fn_body(self.maxdepth, ["x"], "int")
+                self.nocall = False
+                return [FnStmt(fa, [], [Defer(Call(fb, self.small())), self.probe(), Ret(self.small())]), P(Call(fa)),
+                        Let(fb, Fn(["x"], nb)), P(Call(fa)), P(Call(fa))]
+            return [self.probe()]
+        if k == 41:
+            # a function made inside an invocation outlives it; invocations do not share their scopes
+            self.nfn += 1
+            mk, g1, g2 = "mk%d" % self.nfn, "g%da" % self.nfn, "g%db" % self.nfn
+            self.define(mk, "other"); self.define(g1, (0, False, "int")); self.define(g2, (0, False, "int"))
+            inner = Fn([], [Let("loc", Bin("+", Nilco(Id("loc"), I(0)), I(1))), self.probe(), Ret(Id("loc"))])
+            pre = [Var("loc", self.small())] if r.random() < 0.5 else []
+            return [FnStmt(mk, [], pre + [Ret(inner)]), Let(g1, Call(mk)), P(Call(g1)), Let(g2, Call(mk)), P(Call(g2)), P(Call(g1)), P(Nilco(Id("loc"), S("undef")))]
+        if k == 42:
+            # a module whose body fails: the error is caught outside and execution continues in the scope that was current before
+            self.nmod += 1
+            m = "mx%d" % self.nmod
+            return [Try([Module(m, [Let("mv", self.small()), self.probe(), Throw(S("m")), self.probe()])], "e", [P(Id("e")), P(Nilco(Id("mv"), S("undef"))), self.peek()],
+                        f=[P(Nilco(Id("mv"), S("undef")))] if r.random() < 0.5 else None),
+                    P(Nilco(Id("mv"), S("undef"))), Let(self.assign_target("int", self.INTS), self.small())]
+        return [self.probe()]
+
+    def program(self):
+        self.reset()
+        r = self.r
+        pre = []
+        for n in self.INTS:
+            if r.random() < 0.6: pre.append(Let(n, self.lit())); self.define(n, "int")
+        for n in self.STRS:
+            if r.random() < 0.5: pre.append(Let(n, S(r.choice(["", "x", "ab"])))); self.define(n, "str")
+        for n in self.LISTS:
+            if r.random() < 0.6: pre.append(Let(n, L(*[self.lit() for _ in range(r.randrange(4))]))); self.define(n, "list")
+        if r.random() < 0.6: pre.append(Let("m1", M((S("a"), self.lit()), (S("b"), self.lit())))); self.define("m1", "map")
+        body = self.block(0, False, False, n=r.randrange(4, 9), scope=False)
+        names = self.INTS + self.STRS + self.LISTS + self.MAPS
+        return pre + body + [Ret(L(*[Nilco(Id(n), S("undef")) for n in names]))]
+
+
+def rand2_programs(seed, n, maxdepth=3):
+    g = Rand2(seed, maxdepth=maxdepth)
+    return [{"id": "rand2-%d-%d" % (seed, i), "prog": g.program()} for i in range(n)]
